@@ -263,6 +263,39 @@ def o_reject_noop(hist):
     return out
 
 
+def o_continuity(hist):
+    """
+    Between the end of an accepted attempt and the start of the next one nothing but a dispatched event may
+    touch the state: x0[k+1] == x1[k], f0[k+1] == f1[k] bit-exactly (also across resumed segments), and
+    y0[k+1] == y1[k] unless a timed event fired in between (fault clearance restores algebraic values).
+    """
+    out = []
+    att = hist['attempts']
+    fired_seq = sorted(r['seq'] for r in hist['timer_log'] if r['enabled'] == 1)
+    import bisect
+    for i in range(len(att) - 1):
+        a, b = att[i], att[i + 1]
+        if not a['converged'] or len(a['x1']) != len(b['x0']):
+            continue
+        j = bisect.bisect_right(fired_seq, a['seq'])
+        event_between = j < len(fired_seq) and fired_seq[j] < b['seq']
+        if not np.array_equal(a['x1'], b['x0']):
+            d = float(np.max(np.abs(a['x1'] - b['x0'])))
+            if not event_between:
+                out.append(V('continuity', 'state changed by %.3g between accepted attempt %d (t=%.6f) and the start of '
+                             'attempt %d without any event' % (d, a['k'], a['t'], b['k']), what='x', resumed=(a['resumed'] != b['resumed'])))
+                break
+        if not np.array_equal(a['f1'], b['f0']) and not event_between:
+            out.append(V('continuity', 'stored right-hand side changed between accepted attempt %d (t=%.6f) and attempt %d' %
+                         (a['k'], a['t'], b['k']), what='f', resumed=(a['resumed'] != b['resumed'])))
+            break
+        if not np.array_equal(a['y1'], b['y0']) and not event_between:
+            out.append(V('continuity', 'algebraic variables changed between accepted attempt %d (t=%.6f) and attempt %d '
+                         'without any event' % (a['k'], a['t'], b['k']), what='y', resumed=(a['resumed'] != b['resumed'])))
+            break
+    return out
+
+
 def o_h_envelope(hist, ss, plan):
     out = []
     cfg = ss.TDS.config
@@ -297,8 +330,8 @@ def o_h_envelope(hist, ss, plan):
                 break
         if (not r['converged']) and cfg.fixt and cfg.shrinkt and i + 1 < len(att) and r['h'] > 0 \
                 and not r.get('busted'):
-            if not att[i + 1]['h'] < r['h']:
-                out.append(V('h_envelope', 'after rejected attempt %d (h=%.6g) the next step is not smaller (h=%.6g)' %
+            if att[i + 1]['h'] > r['h']:
+                out.append(V('h_envelope', 'after rejected attempt %d (h=%.6g) the next step is larger (h=%.6g)' %
                              (r['k'], r['h'], att[i + 1]['h']), what='no_shrink'))
                 break
     return out
